@@ -38,6 +38,7 @@ MUTANTS = [
     ("double-key-fast-path-back", R + "append_map.go", "	if t.K.T == tDOUBLE {", "	if t.K.T == tDOUBLE && t.V.T == tSTRUCT {", ["C02", "C01"]),
     ("binary-map-value-fast-path-back", R + "append_map.go", "	if t.V.Tag == defs.T_binary {", "	if t.V.Tag == defs.T_binary && t.K.T == tSTRING {", ["C02", "C01"]),
     ("recursive-container-check-removed", D + "types.go", "	if def == \"\" && isRecursiveContainer(vt, nil) {", "	if def == \"\" && vt.Kind() == reflect.Slice && isRecursiveContainer(vt, nil) {", ["C13"]),
+    ("anon-struct-qualifier-not-consumed", D + "types.go", "		/* update parsing position */\n		*i = sp\n		return true, nil", "		return true, nil", ["C12"]),
     ("anon-struct-keyword-check-removed", D + "types.go", "		return !isTypeKeyword(*tv), nil", "		return true, nil", ["C13"]),
     ("nested-pointer-check-removed", D + "types.go", "		if !allowPtrs {\n			return nil, EType(vt, \"nested pointer is not allowed\")\n		}", "		if !allowPtrs && vt.Elem().Kind() == reflect.Ptr {\n			return nil, EType(vt, \"nested pointer is not allowed\")\n		}", ["C13"]),
     ("embedded-holder-accepted-again", R + "desc.go", "	if ok && len(f.Index) == 1 && f.Type.Kind() == reflect.Slice", "	if ok && f.Type.Kind() == reflect.Slice", ["C12"]),
